@@ -246,6 +246,24 @@ def _lrepr_nil(_: None, **__) -> str:
     return "nil"
 
 
+# The inverse of the escape sequences accepted by the reader in string literals. Every
+# other character (including non-ASCII characters) is printed as itself, which the
+# reader accepts anywhere in a string literal.
+_STR_ESCAPE_TABLE = str.maketrans(
+    {
+        '"': '\\"',
+        "\\": "\\\\",
+        "\a": "\\a",
+        "\b": "\\b",
+        "\f": "\\f",
+        "\n": "\\n",
+        "\r": "\\r",
+        "\t": "\\t",
+        "\v": "\\v",
+    }
+)
+
+
 @lrepr.register(str)
 def _lrepr_str(
     o: str, human_readable: bool = False, print_readably: bool = PRINT_READABLY, **_
@@ -254,8 +272,7 @@ def _lrepr_str(
         return o
     if print_readably is None or print_readably is False:
         return o
-    escaped = o.encode("unicode_escape").replace(b'"', rb"\"").decode("utf-8")
-    return f'"{escaped}"'
+    return f'"{o.translate(_STR_ESCAPE_TABLE)}"'
 
 
 @lrepr.register(list)
